@@ -352,7 +352,10 @@ PROPS = {
     'C05': {'streams': [('c05', 600, 20000)]},
     'C06': {'streams': [('c06', 700, 20000)]},
     'C07': {'streams': [('c07', 3000, 200000)]},
+    'C08': {'streams': [('c08', 300, 10000)]},
+    'C13': {'streams': [('c13', 900, 30000)]},
     'C14': {'streams': [('c14', 1500, 50000)]},
+    'C17': {'streams': [('c17', 2500, 100000)]},
 }
 
 RULE = ("cases are generated from one splitmix64 state seeded by VERIF_SEED (structured, mostly valid inputs, boundary tables, "
